@@ -1186,6 +1186,10 @@ convert_to_object_bitfield(char *data, CFieldObject *cf)
     CTypeDescrObject *ct = cf->cf_type;
     /*READ(data, ct->ct_size)*/
 
+    if (cf->cf_bitsize == 8 * (int)sizeof(PY_LONG_LONG))
+        return convert_to_object(data, ct);   /* full 64-bit width: a regular
+                                    field; "1ULL << 64" below is undefined */
+
     if (ct->ct_flags & CT_PRIMITIVE_SIGNED) {
         unsigned PY_LONG_LONG value, valuemask, shiftforsign;
         PY_LONG_LONG result;
@@ -1815,8 +1819,14 @@ static int
 convert_from_object_bitfield(char *data, CFieldObject *cf, PyObject *init)
 {
     CTypeDescrObject *ct = cf->cf_type;
-    PY_LONG_LONG fmin, fmax, value = PyLong_AsLongLong(init);
+    PY_LONG_LONG fmin, fmax, value;
     unsigned PY_LONG_LONG rawfielddata, rawvalue, rawmask;
+
+    if (cf->cf_bitsize == 8 * (int)sizeof(PY_LONG_LONG))
+        return convert_from_object(data, ct, init);   /* full 64-bit width: a
+                            regular field; "1ULL << 64" below is undefined */
+
+    value = PyLong_AsLongLong(init);
     if (value == -1 && PyErr_Occurred())
         return -1;
 
